@@ -27,8 +27,9 @@ OUTSIDE = ["DataEdit keys outside {a,b,c,value,source}", "filters raising except
            "Delta with non-numeric values", "DataEdit chains longer than the bound (statement: <= 4)"]
 STUBS = ["Circuit.sblock_queue = list-backed stub; start sequence = real resolver/finalize/init methods called directly"]
 ASSUMPTIONS = ["Delta: delta >= 0", "truthiness of an integer value = (value != 0)"]
-EXPECT_LABELS = {'all': ['edge', 'nfu', 'delta-step', 'delta-induct', 'dataedit', 'pipeline-data',
+EXPECT_LABELS = {'all': ['edge', 'nfu', 'delta-step', 'delta-induct', 'dataedit', 'pipeline-data', 'ifoutput-undef', 'ifoutput-data',
                          'pipeline-ret', 'ifoutput', 'ifnotinit']}
+EXPECT_NOTES = {'all': ['control-true', 'control-false']}
 FLOORS = {'quick': {'paths': 500, 'checks': 1000}, 'thorough': {'paths': 5000, 'checks': 10000}}
 
 
@@ -375,20 +376,24 @@ def scen_pipeline(env, n):
         env.check('pipeline-data', len(sink) == 0)
 
 
-def scen_ctrl(env):
-    """IfOutput / IfNotIitialized follow the control block's output / initialisation state."""
+def scen_ctrl(env, rounds=3):
+    """IfOutput / NotIfInitialized follow the control block's CURRENT output / initialisation state: sequential,
+    combinational and inverted (_not_NAME) control blocks, given by name or as objects, the output changing
+    between deliveries through the same filter objects."""
     circ = sync_circuit()
     sink = []
     p = SinkProbe('p', sink=sink)
     ctrl = Settable('ctl')
     src = Settable('src')
     by_name = env.choose(2, 'by_name')
+    cb = edzed.FuncBlock('cb', func=lambda x: x).connect(ctrl)
     ev_if = edzed.Event(p, 'ifo', efilter=edzed.IfOutput('ctl' if by_name else ctrl))
-    ev_ni = edzed.Event(p, 'ini', efilter=edzed.IfNotIitialized('ctl' if by_name else ctrl))
-    inv = edzed.Event(p, 'inv', efilter=edzed.IfOutput('_not_ctl'))
-    circ._check_persistent_data()
-    circ._resolver.resolve()
-    circ.finalize()
+    # docs/filters.rst: class NotIfInitialized
+    ev_ni = edzed.Event(p, 'ini', efilter=edzed.NotIfInitialized('ctl' if by_name else ctrl))
+    ev_inv = edzed.Event(p, 'inv', efilter=edzed.IfOutput('_not_ctl'))
+    ev_cb = edzed.Event(p, 'cbo', efilter=edzed.IfOutput('cb' if by_name else cb))
+    start_sync(circ)
+    inverter = circ.findblock('_not_ctl')
     # control block not initialised yet
     v = env.int('value')
     r = ev_ni.send(src, value=v)
@@ -396,16 +401,26 @@ def scen_ctrl(env):
     r = ev_if.send(src, value=v)
     env.check('ifoutput-undef', r is False and len(sink) == 1)
     co = env.pick(['int', 'bool', 'none'], 'ctrl_kind')
-    out = env.int('ctrl') if co == 'int' else (env.bool('ctrlb') if co == 'bool' else None)
-    ctrl.event('set', value=out)
-    del sink[:]
-    r = ev_ni.send(src, value=v)
-    env.check('ifnotinit', r is False and not sink)
-    r = ev_if.send(src, value=v)
-    t = truthy(out)
-    env.check('ifoutput', And_(Iff_(t, r is True), Iff_(t, len(sink) == 1)))
-    if sink:
-        env.check('ifoutput-data', dict_eq(sink[0][2], {'value': v, 'source': 'src'}))
+    for k in range(rounds):
+        if co == 'none':
+            out = None if k % 2 == 0 else env.int(f'ctrl{k}')
+        else:
+            out = env.int(f'ctrl{k}') if co == 'int' else env.bool(f'ctrlb{k}')
+        ctrl.event('set', value=out)
+        inverter.eval_block()
+        cb.eval_block()
+        t = bool(truthy(out))           # forks: the control output is a path region
+        del sink[:]
+        r = ev_ni.send(src, value=v)
+        env.check('ifnotinit', r is False and not sink)
+        for ev, etype, want in ((ev_if, 'ifo', t), (ev_cb, 'cbo', t), (ev_inv, 'inv', not t)):
+            del sink[:]
+            r = ev.send(src, value=v, round=k)
+            env.check('ifoutput', (r is True and len(sink) == 1 and sink[0][1] == etype) if want else (r is False and not sink),
+                      info=lambda: (etype, k, out, r, sink))
+            if sink:
+                env.check('ifoutput-data', dict_eq(sink[0][2], {'value': v, 'source': 'src', 'round': k}))
+        env.note('control-true' if t else 'control-false')
 
 
 def shards(tier):
